@@ -46,10 +46,12 @@ class RecMetric(MetricProcessor):
     def __init__(self, name='RecMetric', fail=None):
         super().__init__(name=name)
         self.calls = []
+        self.attempts = []
         self.fail = fail or (lambda op, n: False)
 
     def _rec(self, op, *a):
-        if self.fail(op, len(self.calls)):
+        self.attempts.append((op,) + a)
+        if self.fail(op, len(self.attempts) - 1):
             raise RuntimeError('metric processor failure')
         self.calls.append((op,) + a)
 
